@@ -1,4 +1,5 @@
 """C17 - The category dictionary restricts exactly the listed words (depccg/parsing.py apply_category_filters, shipped model files)."""
+import env
 import numpy
 import gen
 from gallina import lit, gcat, glist, toks
@@ -436,6 +437,20 @@ def run(ctx):
         real_cd = {w: [Category.parse(c) for c in cat_dict[w]] for w in use}
     except Exception as e:      # noqa
         real_cd = None
+    # ... and through the loader itself (depccg/allennlp/utils.py read_params on the shipped configuration): ONE dictionary object, used for
+    # every document below, as a running parser uses it batch after batch
+    try:
+        import os as _os
+        from depccg.allennlp.utils import read_params
+        loaded = read_params(_os.path.join(env.REPO, 'depccg', 'models', 'config_en.jsonnet'))[2]
+        if isinstance(loaded, dict) and set(loaded) == set(cat_dict):
+            real_cd = loaded
+            ctx.count('shipped_dictionary:loaded_by_read_params')
+        else:
+            ctx.fail('shipped_dictionary_not_applicable', f'read_params(config_en.jsonnet) returns a dictionary with {len(loaded) if hasattr(loaded, "__len__") else "?"} words, '
+                     f'cat_dict.en.jsonnet has {len(cat_dict)}', {'kind': 'read_params'})
+    except Exception as e:      # noqa
+        ctx.count(f'shipped_dictionary:read_params_unavailable:{type(e).__name__}')
     if real_cd is not None and targets_en:
         for it in range(3 if ctx.quick else 12):
             sents = [[rng.choice(use) if rng.random() < 0.8 else rng.choice(ABSENT) for _ in range(rng.randint(3, 12))] for _ in range(rng.randint(1, 3))]
